@@ -902,6 +902,7 @@ func Main() {
 	r.Cases("large", r.N(40, 3000), opts(r.N(8, 16)), largeLog)
 	r.Cases("encoder", r.N(40, 2000), opts(r.N(8, 16)), encoderCase)
 	r.Cases("onstart-repair", r.N(40, 1200), core.Opts{Procs: r.N(8, 16), StallSec: 600}, onStartRepair)
+	r.Cases("total-size-pruning", r.N(60, 3000), opts(r.N(6, 16)), pruneCase)
 
 	if !r.IsChild() && os.Getenv("VERIF_ONLY_CASE") == "" {
 		complete := r.Counter("exh_logs_done") == int64(nSmall)+int64(corpusExhaustive)
@@ -930,6 +931,9 @@ func Main() {
 		r.Floor("faults:overwrite", 20)
 		r.Floor("corpus_size_limit_checks", 3)
 		r.Floor("onstart_logs_readable_after_restart", 15)
+		r.Floor("prune_passes_that_removed", 100)
+		r.Floor("prune_passes_that_kept_rotated_files", 50)
+		r.Floor("pruned_logs_that_lost_a_prefix", 30)
 	}
 	if base := os.Getenv("VERIF_C15_SCRATCH"); base != "" && !r.IsChild() {
 		os.RemoveAll(base) // Finish exits the process
